@@ -11,7 +11,7 @@
               the same length, counts '=' padding across interleaved whitespace, and never resizes to a negative length
  SHA-1 = FIPS 180-4 for every message and full Base64 round trips are not decided."""
 import os
-import ir, q, bytesets
+import ir, q, bytesets, bounded, bits
 from ir import strip, strip_lv, const_val, T, pe, walk_expr, fn_exprs, AnalysisBroken
 from core import fwhere
 
@@ -57,20 +57,10 @@ def check_tables(ctx, prog):
                   'inverse table entry for symbol(s) %s does not equal the symbol\'s index in the alphabet' % bad[:8])
     f = fn1(prog, 'asl::encodeBase64', '(const unsigned char *,int)')
     ctx.analysed(f)
-    idx = [e for e in fn_exprs(f) if e.get('k') == 'idx' and strip(e['b']).get('q') == 'asl::base64_chars']
-    masked = [e for e in idx if strip(e['i']).get('k') == 'bin' and strip(e['i']).get('op') == '&' and const_val(strip(e['i'])['y']) == 0x3f]
-    shifts = sorted(const_val(strip(strip(e['i'])['x'])['y']) if strip(strip(e['i'])['x']).get('op') == '>>' else 0 for e in masked)
-    ctx.check(len(idx) == 4 and len(masked) == 4 and shifts == [0, 6, 12, 18], 'C15.tables', f['pq'], 'encodeBase64:four 6-bit indices', fwhere(f),
-              'indices (u >> 18,12,6,0) & 0x3f', 'encodeBase64 does not index the alphabet with the four 6-bit groups (u >> 18, 12, 6, 0) & 0x3f: shifts %s, %d of %d masked' % (shifts, len(masked), len(idx)))
-    # 24-bit group assembly
-    ors = [e for e in fn_exprs(f) if e.get('k') == 'bin' and e.get('op') == '<<' and const_val(e['y']) in (16, 8)]
-    ctx.check(sorted(set(const_val(e['y']) for e in ors)) == [8, 16], 'C15.tables', f['pq'], 'encodeBase64:24-bit group', fwhere(f), '(a << 16) | (b << 8) | c', 'encodeBase64 does not assemble the 24-bit group as (a << 16) | (b << 8) | c')
-    # decode side assembles (k0 << 18) | (k1 << 12) | (k2 << 6) | k3 and splits into >>16, >>8 & 0xff, & 0xff
+    check_encoder_bits(ctx, prog, f)
     f = fn1(prog, 'asl::decodeBase64', '(const char *,int)')
     ctx.analysed(f)
-    shl = sorted(set(const_val(e['y']) for e in fn_exprs(f) if e.get('k') == 'bin' and e.get('op') == '<<' and const_val(e['y']) is not None))
-    shr = sorted(set(const_val(e['y']) for e in fn_exprs(f) if e.get('k') == 'bin' and e.get('op') == '>>' and const_val(e['y']) is not None))
-    ctx.check(shl == [6, 12, 18] and shr == [8, 16], 'C15.tables', f['pq'], 'decodeBase64:group assembly', fwhere(f), '<< 18,12,6 then >> 16,8', 'decodeBase64 group assembly uses shifts << %s and >> %s' % (shl, shr))
+    check_decoder_bits(ctx, prog, f)
     # hex nibble table
     f = fn1(prog, 'asl::hexNibble')
     ctx.analysed(f)
@@ -92,6 +82,159 @@ def check_tables(ctx, prog):
         dst = strip(sn[0]['a'][0])
         okk = fmt.get('k') == 'str' and bytes(fmt['b']).decode() in ('%02x',) and const_val(sn[0]['a'][1]) == 3 and any(w.get('k') == 'bin' and w.get('op') == '*' and const_val(w['x']) == 2 for w in walk_expr(dst))
     ctx.check(okk, 'C15.tables', f['pq'], 'encodeHex:two lowercase digits per byte', fwhere(f), 'snprintf(&h[2*i], 3, "%02x", data[i])', 'encodeHex does not write exactly two lowercase hex digits per byte at offset 2*i')
+
+
+def _offset_of(ix):
+    """constant offset j of an index expression `v + j` / `v` (None when it is something else)"""
+    ix = strip(ix)
+    if ix.get('k') == 'var':
+        return 0
+    if ix.get('k') == 'bin' and ix.get('op') == '+' and strip(ix['x']).get('k') == 'var' and const_val(ix['y']) is not None:
+        return const_val(ix['y'])
+    if const_val(ix) is not None:
+        return const_val(ix)
+    return None
+
+
+def check_encoder_bits(ctx, prog, f):
+    """Bit provenance of every alphabet look-up of encodeBase64: the index is one of the four sextets of the 24-bit group
+    data[i] : data[i+1] : data[i+2] (most significant first), bits 6.. are zero, and all four sextets occur.  A zero bit in
+    place of a data[i+1] / data[i+2] bit is the zero padding of a short final group."""
+    data = f['params'][0]
+
+    def leaf(e):
+        if e.get('k') == 'idx' and strip(e['b']).get('id') == data['id']:
+            j = _offset_of(e['i'])
+            if j is None or not 0 <= j <= 2:
+                return ['X'] * bits.W
+            return bits.var_bits(('d', j), 8)
+        return None
+
+    def group_bit(g_):
+        return (('d', 0), g_ - 16) if g_ >= 16 else ((('d', 1), g_ - 8) if g_ >= 8 else (('d', 2), g_))
+    expect = [[group_bit(18 - 6 * k + b) for b in range(6)] for k in range(4)]
+    env = bits.Env(f, leaf=leaf, through_locals=True)
+    lookups = [e for e in fn_exprs(f) if e.get('k') == 'idx' and strip(e['b']).get('q') == 'asl::base64_chars']
+    role = 'encodeBase64:four 6-bit indices'
+    if len(lookups) < 4:
+        ctx.undecided('C15.tables', f['pq'], role, fwhere(f), 'fewer than four alphabet look-ups found')
+        return
+    seen = set()
+    for e in lookups:
+        v = env.eval(e['i'])
+        ctx.evaluations += 1
+        names = {('d', 0): 'a', ('d', 1): 'b', ('d', 2): 'c'}
+        if any(x != '0' for x in v[6:]):
+            if any(x == 'X' for x in v[6:]) and not any(x not in ('0', 'X') for x in v[6:]):
+                ctx.undecided('C15.tables', f['pq'], role, fwhere(f, e['l']), 'index `%s` not resolved to input bits' % pe(e['i']))
+            else:
+                ctx.violation('C15.tables', f['pq'], role, fwhere(f, e['l']), 'alphabet index `%s` is not confined to 6 bits (bits %s): it can exceed the 64-entry table' % (pe(e['i']), bits.show(v, names, 10)))
+            continue
+        if 'X' in v[:6]:
+            ctx.undecided('C15.tables', f['pq'], role, fwhere(f, e['l']), 'index `%s` not resolved to input bits (%s)' % (pe(e['i']), bits.show(v, names, 6)))
+            continue
+        match = None
+        for k in range(4):
+            if all(v[b] == expect[k][b] or (v[b] == '0' and expect[k][b][0] != ('d', 0)) for b in range(6)) and any(v[b] == expect[k][b] for b in range(6)):
+                match = k
+        if match is None:
+            ctx.violation('C15.tables', f['pq'], role, fwhere(f, e['l']), 'alphabet index `%s` carries bits [%s], which is none of the four sextets of the group (a << 16) | (b << 8) | c' % (pe(e['i']), bits.show(v, names, 6)))
+        else:
+            seen.add(match)
+            ctx.ok('C15.tables', f['pq'], role, fwhere(f, e['l']), 'index `%s` = sextet %d of the group: [%s]' % (pe(e['i']), match, bits.show(v, names, 6)))
+    if len(seen) < 4 and not any(o.status != 'ok' and o.role == role for o in ctx.obligations):
+        ctx.violation('C15.tables', f['pq'], role, fwhere(f), 'the alphabet look-ups cover only sextets %s of the 24-bit group' % sorted(seen))
+
+
+def check_decoder_bits(ctx, prog, f):
+    """Bit provenance of the three bytes decodeBase64 writes per group of four symbols s0..s3:
+    byte m = bits 23-8m .. 16-8m of (s0 << 18) | (s1 << 12) | (s2 << 6) | s3."""
+    role = 'decodeBase64:group assembly'
+    loops = [s_ for s_ in ir.walk_stmts(f['body']) if s_.get('k') in ('for', 'while') and any(e.get('k') == 'idx' and strip(e['b']).get('q') == 'asl::base64_chars_inv' for e in ir.stmt_exprs(s_['body']))]
+    if len(loops) != 1:
+        ctx.undecided('C15.tables', f['pq'], role, fwhere(f), 'decoding loop not found')
+        return
+    lp = loops[0]
+    # output writes: assignments through a byte pointer inside the loop
+    outs = []
+    for e in ir.stmt_exprs(lp['body']):
+        if e.get('k') == 'bin' and e.get('op') == '=':
+            l = strip_lv(e['x'])
+            pos = None
+            if l.get('k') == 'un' and l.get('op') == '*':
+                pos = 'seq'
+                base = strip(l['e'])
+                if base.get('k') == 'un' and base.get('op') in ('post++',):
+                    base = strip_lv(base['e'])
+                else:
+                    pos = 0
+            elif l.get('k') == 'idx':
+                base = strip(l['b'])
+                pos = const_val(l['i'])
+            else:
+                continue
+            bt = T(f, base.get('t'))
+            if base.get('k') == 'var' and bt.get('ptr') and T(f, bt.get('to')).get('bits') == 8:
+                outs.append((e, pos))
+    if len(outs) != 3:
+        ctx.undecided('C15.tables', f['pq'], role, fwhere(f, lp['l']), '%d byte stores found in the decoding loop, expected the 3 bytes of a group' % len(outs))
+        return
+    positions = [i if p == 'seq' else p for i, (e, p) in enumerate(outs)]
+    # the group value: a single expression over k[0..3], or the shift-accumulate recurrence u = (u << 6) | s
+    karr = None
+
+    def leaf(e):
+        if e.get('k') == 'idx' and strip(e['b']).get('k') == 'var' and T(f, strip(e['b']).get('t')).get('arr') is not None or \
+                (e.get('k') == 'idx' and strip(e['b']).get('k') == 'var' and strip(e['b']).get('vk') == 'local' and const_val(e.get('i')) is not None and strip(e['b']).get('q') is None):
+            j = const_val(e['i'])
+            if j is None or not 0 <= j <= 3:
+                return ['X'] * bits.W
+            return bits.var_bits(('s', j), 6)
+        return None
+    env = bits.Env(f, leaf=leaf, through_locals=True)
+    # recurrence form
+    acc = {}
+    for e in ir.stmt_exprs(lp['body']):
+        if e.get('k') == 'bin' and e.get('op') == '=' and strip_lv(e['x']).get('k') == 'var':
+            vid = strip_lv(e['x'])['id']
+            if any(w.get('k') == 'var' and w.get('id') == vid for w in walk_expr(e['y'])) and any(w.get('k') == 'idx' and strip(w['b']).get('q') == 'asl::base64_chars_inv' for w in walk_expr(e['y'])):
+                acc[vid] = e
+    if acc:
+        if len(acc) != 1:
+            ctx.undecided('C15.tables', f['pq'], role, fwhere(f, lp['l']), 'several accumulators in the decoding loop')
+            return
+        vid, upd = list(acc.items())[0]
+        resets = [e for e in q._writes_to(f, vid) if e is not upd]
+        decl0 = [v for s_ in ir.walk_stmts(f['body']) if s_.get('k') == 'decl' for v in s_['vars'] if v['id'] == vid]
+        four = any(e.get('k') == 'bin' and e.get('op') in ('<', '==', '>=', '!=') and 4 in (const_val(e['x']), const_val(e['y'])) for e in ir.stmt_exprs(lp['body']))
+        if not (decl0 and const_val(decl0[0].get('init')) == 0 and resets and all(e.get('k') == 'bin' and e.get('op') == '=' and const_val(e['y']) == 0 for e in resets) and four):
+            ctx.undecided('C15.tables', f['pq'], role, fwhere(f, upd['l']), 'accumulator `%s` is not reset to 0 per group of 4 symbols in a recognised way' % strip_lv(upd['x']).get('n'))
+            return
+        cur = bits.const_bits(0)
+        for t in range(4):
+            step_env = bits.Env(f, leaf=lambda e, t=t: bits.var_bits(('s', t), 6) if (e.get('k') == 'idx' and strip(e['b']).get('q') == 'asl::base64_chars_inv') else None, through_locals=True)
+            step_env.vars[vid] = cur
+            cur = step_env.eval(upd['y'])
+        env.vars[vid] = cur
+
+    def group_bit(g_):
+        j = (23 - g_) // 6
+        return (('s', j), g_ - (18 - 6 * j))
+    names = {('s', 0): 'p', ('s', 1): 'q', ('s', 2): 'r', ('s', 3): 't'}
+    for (e, _), m in zip(outs, positions):
+        v = env.eval(e['y'])
+        ctx.evaluations += 1
+        if m is None or not 0 <= m <= 2:
+            ctx.undecided('C15.tables', f['pq'], role, fwhere(f, e['l']), 'position of the byte store `%s` not recognised' % pe(e['x']))
+            continue
+        want = [group_bit(16 - 8 * m + b) for b in range(8)]
+        if 'X' in v[:8]:
+            ctx.undecided('C15.tables', f['pq'], role, fwhere(f, e['l']), 'byte %d `%s` not resolved to symbol bits [%s]' % (m, pe(e['y']), bits.show(v, names, 8)))
+        elif v[:8] == want:
+            ctx.ok('C15.tables', f['pq'], role, fwhere(f, e['l']), 'byte %d = [%s]' % (m, bits.show(v, names, 8)))
+        else:
+            ctx.violation('C15.tables', f['pq'], role, fwhere(f, e['l']), 'byte %d of a decoded group is `%s` = [%s], expected [%s] (bits %d..%d of (s0 << 18) | (s1 << 12) | (s2 << 6) | s3)' % (
+                m, pe(e['y']), bits.show(v, names, 8), bits.show(want, names, 8), 23 - 8 * m, 16 - 8 * m))
 
 
 def check_urlset(ctx, prog):
@@ -166,153 +309,188 @@ def check_urlset(ctx, prog):
               'params() does not encode both key and value in component mode')
 
 
-def loop_bound(f, lp):
-    """for (...; i + k < N; i += B)  ->  (loop var id, k, N expr, B) or None"""
-    c = strip(lp.get('c') or {})
-    inc = strip(lp.get('inc') or {})
-    if inc.get('k') == 'bin' and inc.get('op') == '+=' and const_val(inc['y']) is not None:
-        iv = strip_lv(inc['x'])
-        B = const_val(inc['y'])
+def block_loop(ctx, prog, f, B, consumer, role):
+    """The loop of f that feeds `consumer` (predicate on expressions of the loop body) one B-byte block per iteration must run
+    exactly while a full block is left:  condition(i, N)  <=>  i + B <= N  for every offset i and length N of a grid.
+    `=>` keeps the block read inside the input, `<=` means no full block is left unprocessed."""
+    loops = [s_ for s_ in ir.walk_stmts(f['body']) if s_.get('k') in ('for', 'while') and any(consumer(e) for e in ir.stmt_exprs(s_['body']))]
+    if len(loops) != 1:
+        ctx.undecided('C15.stride', f['pq'], role, fwhere(f), 'no single block loop found (%d candidates)' % len(loops))
+        return 0
+    lp = loops[0]
+    cl = q.counted_loop(f, lp, need_init=False)
+    if cl is None:
+        ctx.undecided('C15.stride', f['pq'], role, fwhere(f, lp['l']), 'block loop is not a recognised counting loop')
+        return 0
+    try:
+        step = cl['step'] if isinstance(cl['step'], int) else bytesets.Evaluator(prog, f).ev(cl['step'])
+        by_id, by_text = bounded.atoms_of(prog, f, cl['cond'], allow_assigned=(cl['var'],))
+    except bytesets.Undecidable as u:
+        ctx.undecided('C15.stride', f['pq'], role, fwhere(f, lp['l']), 'loop step / condition not evaluable: %s' % u)
+        return 0
+    others = [i for i in by_id if i != cl['var']]
+    if cl['var'] not in by_id or len(others) + len(by_text) != 1:
+        ctx.undecided('C15.stride', f['pq'], role, fwhere(f, lp['l']), 'loop condition `%s` is not a relation between the offset and one length' % pe(cl['cond']))
+        return 0
+    if step != B:
+        ctx.violation('C15.stride', f['pq'], role, fwhere(f, lp['l']), 'the block loop advances by %s per iteration, the block size is %d' % (step, B))
+        return 1
+    bad = None
+    offs = sorted(set([0, 1, B - 1, B, B + 1, 2 * B - 1, 2 * B, 2 * B + 1]))
+    try:
+        for i in offs:
+            for N in range(0, 3 * B + 3):
+                bi = {cl['var']: i}
+                bt = {}
+                if others:
+                    bi[others[0]] = N
+                else:
+                    bt[list(by_text)[0]] = N
+                ev = bounded.Bound(prog, f, bi, bt)
+                got = bool(ev.ev(cl['cond']))
+                ctx.evaluations += 1
+                if got != (i + B <= N) and bad is None:
+                    bad = (i, N, got)
+    except bytesets.Undecidable as u:
+        ctx.undecided('C15.stride', f['pq'], role, fwhere(f, lp['l']), 'loop condition not evaluable: %s' % u)
+        return 0
+    if bad is None:
+        ctx.ok('C15.stride', f['pq'], role, fwhere(f, lp['l']), '`%s` <=> offset + %d <= length on the grid: exactly the full blocks' % (pe(cl['cond']), B))
     else:
-        return None
-    if c.get('k') != 'bin' or c.get('op') not in ('<', '<='):
-        return None
-    lhs, rhs = strip(c['x']), c['y']
-    k = 0 if c['op'] == '<' else -1          # i + k <= N  ==  i + (k - 1) < N
-    if lhs.get('k') == 'bin' and lhs.get('op') == '+' and const_val(lhs['y']) is not None:
-        k = const_val(lhs['y'])
-        lhs = strip(lhs['x'])
-    if lhs.get('k') != 'var' or lhs.get('id') != iv.get('id'):
-        return None
-    r = strip(rhs)
-    # a bound hoisted into a local initialised once (const int last = len - 64)
-    if r.get('k') == 'var' and r.get('vk') == 'local':
-        inits = [v for s_ in ir.walk_stmts(f['body']) if s_.get('k') == 'decl' for v in s_['vars'] if v['id'] == r['id'] and v.get('init') is not None]
-        writes = [e for e in fn_exprs(f) if e.get('k') == 'bin' and e.get('op', '').endswith('=') and e['op'] not in ('==', '!=', '<=', '>=') and strip_lv(e['x']).get('id') == r['id']]
-        if len(inits) == 1 and not writes:
-            rhs = inits[0]['init']
-            r = strip(rhs)
-    if r.get('k') == 'bin' and r.get('op') == '-' and const_val(r['y']) is not None:
-        k += const_val(r['y'])
-        rhs = r['x']
-    return iv['id'], k, rhs, B
+        i, N, got = bad
+        ctx.violation('C15.stride', f['pq'], role, fwhere(f, lp['l']), 'loop condition `%s` is %s at offset %d of %d bytes (stride %d): %s' % (
+            pe(cl['cond']), 'true' if got else 'false', i, N, B, 'the block read runs past the end of the input' if got else 'a full trailing block is left unprocessed'))
+    return 1
 
 
 def check_stride(ctx, prog):
     n = 0
     # full-block consumers
-    for name, sig, B in (('asl::SHA1::update', None, 64), ('asl::decodeHex', None, 2)):
-        f = fn1(prog, name, sig)
-        ctx.analysed(f)
-        loops = [s_ for s_ in ir.walk_stmts(f['body']) if s_.get('k') == 'for' and loop_bound(f, s_) and loop_bound(f, s_)[3] == B]
-        role = '%s:block loop bound' % f['n']
-        if len(loops) != 1:
-            ctx.undecided('C15.stride', f['pq'], role, fwhere(f), 'no single loop with stride %d' % B)
-            continue
-        n += 1
-        iv, k, N, B_ = loop_bound(f, loops[0])
-        ctx.evaluations += 1
-        ctx.check(k == B - 1, 'C15.stride', f['pq'], role, fwhere(f, loops[0]['l']), 'i + %d < %s with stride %d: exactly the full blocks' % (k, pe(N), B),
-                  'loop `i + %d < %s` with stride %d: %s' % (k, pe(N), B, 'reads past the end of the input on the last block' if k < B - 1 else 'skips a full trailing block (it is buffered but never processed)'))
-    # guarded tail reads
+    f = fn1(prog, 'asl::SHA1::update', None)
+    ctx.analysed(f)
+    n += block_loop(ctx, prog, f, 64, lambda e: e.get('k') == 'call' and (e.get('pq') or e.get('fn') or '').endswith('transform'), 'update:block loop bound')
+    f = fn1(prog, 'asl::decodeHex', None)
+    ctx.analysed(f)
+    n += block_loop(ctx, prog, f, 2, lambda e: e.get('k') == 'call' and (e.get('pq') or '').endswith('hexToInt'), 'decodeHex:block loop bound')
+    # guarded reads of the encoder: every data[...] read stays inside [0, n) under its guards
     f = fn1(prog, 'asl::encodeBase64', '(const unsigned char *,int)')
     ctx.analysed(f)
-    loops = [s_ for s_ in ir.walk_stmts(f['body']) if s_.get('k') == 'for' and loop_bound(f, s_)]
-    if len(loops) == 1:
+    g = q.Guarded(f)
+    data, nparam = f['params'][0], f['params'][1]
+    reads = [e for e in fn_exprs(f) if e.get('k') == 'idx' and strip(e['b']).get('id') == data['id']]
+    role = 'encodeBase64:guarded tail reads'
+    verdicts = []
+    for e in reads:
+        try:
+            by_id, by_text = bounded.atoms_of(prog, f, e['i'], allow_assigned=tuple(bounded.assigned_vars(f)))
+        except bytesets.Undecidable as u:
+            verdicts.append(('undecided', str(u), e))
+            continue
+        by_id[nparam['id']] = nparam['n']
+        wr = bounded.writes_between(g, f, set(by_id), g.of(e), e)
+        if wr is not None:
+            verdicts.append(('undecided', 'index variable written (line %s) between its guard and the read' % wr.get('l'), e))
+            continue
+        ix = e['i']
+        st, info = bounded.decide(prog, f, g.of(e), lambda ev: 0 <= ev.ev(ix) < ev.env[nparam['id']], by_id, by_text, range(0, 9), G=g)
+        ctx.evaluations += 81
+        verdicts.append((st, info, e))
+    if len(reads) >= 3:
         n += 1
-        iv, k, N, B = loop_bound(f, loops[0])
-        g = q.Guarded(f)
-        ok = k == 0 and B == 3
-        why = '' if ok else 'loop is not `i < n; i += 3`'
-        for e in ir.stmt_exprs(loops[0]['body']):
-            if e.get('k') == 'idx' and strip(e['b']).get('vk') == 'param':
-                ix = strip(e['i'])
-                j = 0
-                if ix.get('k') == 'bin' and ix.get('op') == '+' and const_val(ix['y']) is not None:
-                    j = const_val(ix['y'])
-                if j == 0:
-                    continue
-                guarded = False
-                for c, pol, kind in g.of(e):
-                    cc = strip(c)
-                    if kind == 'cond' and pol is True and cc.get('k') == 'bin' and cc.get('op') == '<' and pe(strip(cc['x'])) == pe(ix) and pe(strip(cc['y'])) == pe(strip(N)):
-                        guarded = True
-                ctx.evaluations += 1
-                if not guarded:
-                    ok = False
-                    why = 'data[i + %d] is read without the guard i + %d < n: reads past the input when its length is not a multiple of 3' % (j, j)
-        ctx.check(ok, 'C15.stride', f['pq'], 'encodeBase64:guarded tail reads', fwhere(f, loops[0]['l']), 'data[i+1], data[i+2] read only under i+j < n', why)
+    bad = [v for v in verdicts if v[0] == 'fails']
+    und = [v for v in verdicts if v[0] == 'undecided']
+    if bad:
+        st, info, e = bad[0]
+        ctx.violation('C15.stride', f['pq'], role, fwhere(f, e['l']), '`%s` is read although its guards admit %s: reads past the input when its length is not a multiple of 3' % (
+            pe(e), ', '.join('%s = %s' % kv for kv in sorted(info.items()))))
+    elif und:
+        ctx.undecided('C15.stride', f['pq'], role, fwhere(f, und[0][2]['l']), '`%s`: %s' % (pe(und[0][2]), und[0][1]))
+    else:
+        ctx.ok('C15.stride', f['pq'], role, fwhere(f), '%d reads of the input, each within [0, n) for every (offset, n) its guards admit' % len(reads))
     ctx.floor('C15.stride', n, 3)
-    # padding arithmetic of the encoder: len = 4 * ((n + 2) / 3)
-    lens = [v for s_ in ir.walk_stmts(f['body']) if s_.get('k') == 'decl' for v in s_['vars'] if v['n'] == 'len' or (v.get('init') is not None and any(const_val(w) == 3 and w.get('k') == 'int' for w in walk_expr(v['init'])))]
-    if lens:
-        e = strip(lens[0]['init'])
-        ok = e.get('k') == 'bin' and e.get('op') == '*' and {const_val(e['x']), const_val(e['y'])} & {4} and any(w.get('k') == 'bin' and w.get('op') == '/' and const_val(w['y']) == 3 and strip(w['x']).get('op') == '+' and const_val(strip(w['x'])['y']) == 2 for w in walk_expr(e))
-        ctx.check(bool(ok), 'C15.stride', f['pq'], 'encodeBase64:output length 4*ceil(n/3)', fwhere(f, lens[0]['l']), '4 * ((n + 2) / 3)', 'encodeBase64 sizes its output as `%s`, not 4 * ((n + 2) / 3)' % pe(e))
+    # padding arithmetic of the encoder: the output is sized 4 * ceil(n / 3) for every n
+    outs = [v for s_ in ir.walk_stmts(f['body']) if s_.get('k') == 'decl' for v in s_['vars'] if T(f, v['t']).get('rec') == 'asl::String' and strip(v.get('init') or {}).get('k') == 'construct' and strip(v['init']).get('a')]
+    role = 'encodeBase64:output length 4*ceil(n/3)'
+    if len(outs) != 1:
+        ctx.undecided('C15.stride', f['pq'], role, fwhere(f), 'output string construction not found')
+    else:
+        args = strip(outs[0]['init'])['a']
+        try:
+            bad = None
+            for nv in range(0, 40):
+                ev = bytesets.Evaluator(prog, f, {nparam['id']: nv})
+                got = ev.ev(args[-1])
+                ctx.evaluations += 1
+                if got != 4 * ((nv + 2) // 3) and bad is None:
+                    bad = (nv, got)
+            ctx.check(bad is None, 'C15.stride', f['pq'], role, fwhere(f, outs[0]['l']), '`%s` = 4 * ceil(n / 3) for n = 0..39' % pe(args[-1]),
+                      'encodeBase64 sizes its output as `%s`, which is %s for n = %s, not 4 * ceil(n / 3)' % (pe(args[-1]), bad[1] if bad else '', bad[0] if bad else ''))
+        except bytesets.Undecidable as u:
+            ctx.undecided('C15.stride', f['pq'], role, fwhere(f, outs[0]['l']), 'output length not evaluable from n: %s' % u)
 
 
 def check_decode(ctx, prog):
-    # Url::decode look-ahead
-    f = fn1(prog, 'asl::Url::decode')
-    ctx.analysed(f)
-    g = q.Guarded(f)
-    src = f['params'][0]['id']
-    n = 0
-    for e in fn_exprs(f):
-        if e.get('k') == 'call' and e.get('op') == '[]' and e.get('obj') is not None and strip(e['obj']).get('id') == src:
-            ix = strip(e['a'][0])
-            j = 0
-            if ix.get('k') == 'bin' and ix.get('op') == '+' and const_val(ix['y']) is not None:
-                j = const_val(ix['y'])
-                ix = strip(ix['x'])
-            if j == 0:
-                continue
-            n += 1
-            allowed = None
-            for c, pol, kind in g.of(e):
-                cc = strip(c)
-                # after `if (i > len - m) break;`  :  i <= len - m
-                if kind == 'after' and pol is False and cc.get('k') == 'bin' and cc.get('op') in ('>', '>=') and strip(cc['x']).get('id') == ix.get('id'):
-                    r = strip(cc['y'])
-                    m = 0
-                    if r.get('k') == 'bin' and r.get('op') == '-' and const_val(r['y']) is not None:
-                        m = const_val(r['y'])
-                        r = strip(r['x'])
-                    if r.get('k') == 'call' and (r.get('pq') or '').endswith('::length'):
-                        allowed = m - (1 if cc['op'] == '>=' else 0)
-            ctx.evaluations += 1
-            ctx.check(allowed is not None and j <= allowed, 'C15.decode', f['pq'], 'decode:look-ahead q0[i + %d]' % j, fwhere(f, e['l']), 'dominated by i <= length - %s' % allowed,
-                      'Url::decode reads q0[i + %d] but the dominating guard only establishes i + %s <= length(): a trailing %% reads past the terminator' % (j, allowed))
-    ctx.floor('C15.decode look-ahead', n, 2)
+    # Url::decode look-ahead (same obligation as C09.lookahead, decided by the same rule)
+    import C09
+    C09.url_decode_lookahead(ctx, prog, 'C15.decode')
 
     # decodeBase64
     f = fn1(prog, 'asl::decodeBase64', '(const char *,int)')
     ctx.analysed(f)
     # (a) main loop bounded by the given length
-    loops = [s_ for s_ in ir.walk_stmts(f['body']) if s_.get('k') == 'while']
+    loops = [s_ for s_ in ir.walk_stmts(f['body']) if s_.get('k') in ('while', 'for')]
     main = [lp for lp in loops if any(e.get('k') == 'idx' and strip(e['b']).get('q') == 'asl::base64_chars_inv' for e in ir.stmt_exprs(lp['body']))]
-    ends = {}
     lenvar = None
     for s_ in ir.walk_stmts(f['body']):
         if s_.get('k') == 'decl':
             for v in s_['vars']:
                 ini = strip(v.get('init') or {})
-                if ini.get('k') == 'bin' and ini.get('op') == '+' and strip(ini['x']).get('k') == 'var' and strip(ini['y']).get('k') == 'var':
-                    ends[v['id']] = (strip(ini['x'])['id'], strip(ini['y'])['id'])
                 if ini.get('k') == 'cond' and any(w.get('k') == 'call' and w.get('fn') == 'strlen' for w in walk_expr(ini)):
                     lenvar = v['id']
-    okb = False
-    if len(main) == 1 and lenvar is not None:
+    role = 'decodeBase64:loop bounded by the given length'
+    if len(main) != 1 or lenvar is None:
+        ctx.undecided('C15.decode', f['pq'], role, fwhere(f), 'decoding loop or effective length (n < 0 ? strlen : n) not found')
+    else:
+        # some conjunct of the loop condition is `cursor < base + len` or `index < len`, read through single-assignment locals
+        okb = False
+        mentions = False
         for part in conj(main[0]['c']):
             part = strip(part)
-            if part.get('k') == 'bin' and part.get('op') == '<' and strip(part['y']).get('id') in ends and ends[strip(part['y'])['id']][1] == lenvar:
-                okb = True
-    ctx.check(okb, 'C15.decode', f['pq'], 'decodeBase64:loop bounded by the given length', fwhere(f, main[0]['l'] if main else None), 'src < src0 + len',
-              'the decoding loop is not bounded by the given length (it runs to the terminator while the result is sized from the length): writes past the result when n < strlen')
-    # (b) result sized from the same length
-    sized = [v for s_ in ir.walk_stmts(f['body']) if s_.get('k') == 'decl' for v in s_['vars'] if v.get('init') is not None and strip(v['init']).get('k') == 'bin' and
-             any(w.get('k') == 'var' and w.get('id') == lenvar for w in walk_expr(v['init'])) and any(const_val(w) == 3 for w in walk_expr(v['init'])) and any(const_val(w) == 4 for w in walk_expr(v['init']))]
-    ctx.check(bool(sized), 'C15.decode', f['pq'], 'decodeBase64:result sized len/4*3', fwhere(f), 'len / 4 * 3 bytes', 'result is not sized len / 4 * 3 from the scanned length')
+            ex = q.expand(f, part, stop=(lenvar,))
+            if any(w.get('k') == 'var' and w.get('id') == lenvar for w in walk_expr(ex)):
+                mentions = True
+                ex = strip(ex)
+                if ex.get('k') == 'bin' and ex.get('op') in ('<', '>', '!='):
+                    hi = strip(ex['y'] if ex['op'] in ('<', '!=') else ex['x'])
+                    if hi.get('k') == 'var' and hi.get('id') == lenvar:
+                        okb = True
+                    if hi.get('k') == 'bin' and hi.get('op') == '+' and lenvar in (strip(hi['x']).get('id'), strip(hi['y']).get('id')):
+                        okb = True
+        if okb:
+            ctx.ok('C15.decode', f['pq'], role, fwhere(f, main[0]['l']), 'loop condition `%s` stops at base + len' % pe(main[0]['c']))
+        elif mentions:
+            ctx.undecided('C15.decode', f['pq'], role, fwhere(f, main[0]['l']), 'loop condition `%s` involves the length in an unrecognised way' % pe(main[0]['c']))
+        else:
+            ctx.violation('C15.decode', f['pq'], role, fwhere(f, main[0]['l']),
+                          'the decoding loop `%s` is not bounded by the given length (it runs to the terminator while the result is sized from the length): writes past the result when n < strlen' % pe(main[0]['c']))
+    # (b) result sized from the same length: len / 4 * 3 for every len
+    role = 'decodeBase64:result sized len/4*3'
+    res = [v for s_ in ir.walk_stmts(f['body']) if s_.get('k') == 'decl' for v in s_['vars'] if T(f, v['t']).get('recp') == 'asl::Array' and strip(v.get('init') or {}).get('k') == 'construct' and strip(v['init']).get('a')]
+    if len(res) != 1 or lenvar is None:
+        ctx.undecided('C15.decode', f['pq'], role, fwhere(f), 'result array construction not found')
+    else:
+        arg = strip(res[0]['init'])['a'][0]
+        try:
+            bad = None
+            for lv in range(0, 41):
+                got = bytesets.Evaluator(prog, f, {lenvar: lv}).ev(arg)
+                ctx.evaluations += 1
+                if got < (lv // 4) * 3 and bad is None:
+                    bad = (lv, got)
+            ctx.check(bad is None, 'C15.decode', f['pq'], role, fwhere(f, res[0]['l']), '`%s` >= len / 4 * 3 for len = 0..40' % pe(arg),
+                      'the result is allocated with `%s` = %s bytes for a text of %s symbols, fewer than the len / 4 * 3 the loop can write' % (pe(arg), bad[1] if bad else '', bad[0] if bad else ''))
+        except bytesets.Undecidable as u:
+            ctx.undecided('C15.decode', f['pq'], role, fwhere(f, res[0]['l']), 'allocation size not evaluable from the length: %s' % u)
     # (c) padding count loop: continues over '=' and over every byte the forward loop skips as whitespace, stops at symbols
     back = [lp for lp in loops if lp not in main]
     role = 'decodeBase64:padding count spans interleaved whitespace'
@@ -320,7 +498,7 @@ def check_decode(ctx, prog):
         ctx.undecided('C15.decode', f['pq'], role, fwhere(f), 'no backward padding scan found')
     else:
         # the loop that increments the padding counter
-        cnt = [lp for lp in back if any(e.get('k') == 'un' and e.get('op') in ('post++', 'pre++') for e in ir.stmt_exprs(lp['body']))]
+        cnt = [lp for lp in back if any(e.get('k') == 'un' and e.get('op') in ('post++', 'pre++') and T(f, strip_lv(e['e']).get('t')).get('int') for e in ir.stmt_exprs(lp['body']))]
         if len(cnt) != 1:
             ctx.undecided('C15.decode', f['pq'], role, fwhere(f), 'padding counting loop not unique')
         else:
@@ -328,12 +506,20 @@ def check_decode(ctx, prog):
             def is_cur(e):
                 e2 = strip_lv(e)
                 return e2.get('k') == 'un' and e2.get('op') == '*' and strip(e2['e']).get('k') == 'var' and T(f, strip(e2['e']).get('t')).get('ptr')
-            # drop the pointer-range conjunct (p > src): evaluate the remaining conjuncts
-            parts = [p for p in conj(lp['c']) if not (strip(p).get('k') == 'bin' and strip(p).get('op') in ('>', '>=', '<', '!=') and T(f, strip(strip(p)['x']).get('t')).get('ptr'))]
+            def is_ptr_range(p):
+                p = strip(p)
+                return p.get('k') == 'bin' and p.get('op') in ('>', '>=', '<', '!=') and T(f, strip(p['x']).get('t')).get('ptr')
+            # continue set = bytes for which the loop condition holds and no `if (c) break;` of the body fires
+            parts = [p for p in conj(lp['c']) if not is_ptr_range(p)]
+            body = lp['body']['s'] if lp['body'].get('k') == 'block' else [lp['body']]
+            stops = [st['c'] for st in body if st.get('k') == 'if' and not st.get('else') and q.always_exits(st['then']) and
+                     any(x.get('k') in ('break', 'return') for x in ir.walk_stmts(st['then']))]
             try:
                 cont = set(range(256))
                 for p in parts:
                     cont &= bytesets.byteset(prog, f, p, is_cur, signed=False)
+                for c in stops:
+                    cont -= bytesets.byteset(prog, f, c, is_cur, signed=False)
                 ctx.evaluations += 256
                 ws = set()
                 for e in ir.stmt_exprs(main[0]['body']) if main else []:
@@ -346,19 +532,50 @@ def check_decode(ctx, prog):
                           % (bytesets.fmt_set(cont & set(range(9, 128))), bytesets.fmt_set(ws)))
             except bytesets.Undecidable as ex:
                 ctx.undecided('C15.decode', f['pq'], role, fwhere(f, lp['l']), 'loop condition not evaluable: %s' % ex)
-    # (d) R-NEGLEN
-    for name in ('asl::decodeBase64',):
-        rs = [e for e in fn_exprs(f) if e.get('k') == 'call' and e.get('pq') == 'asl::Array::resize']
-        last = rs[-1] if rs else None
-        ok = False
-        if last is not None:
-            a = strip(last['a'][0])
-            if a.get('k') == 'call' and (a.get('pq') or '').endswith('max') and 0 in [const_val(x) for x in a['a']]:
-                ok = True
-            if not any(w.get('k') == 'bin' and w.get('op') == '-' for w in walk_expr(a)):
-                ok = True
-        ctx.check(ok, 'R-NEGLEN', f['pq'], 'decodeBase64:final length clamped', fwhere(f, last['l'] if last else None), 'resize(max(0, ...))',
-                  'the final resize() takes a difference of input-derived terms without clamping at 0: padding-only input yields a negative length')
+    # (d) R-NEGLEN: the final resize() argument is >= 0 whatever the written count and the padding count are
+    rs = [e for e in fn_exprs(f) if e.get('k') == 'call' and e.get('pq') == 'asl::Array::resize']
+    last = rs[-1] if rs else None
+    role = 'decodeBase64:final length clamped'
+    if last is None:
+        ctx.undecided('R-NEGLEN', f['pq'], role, fwhere(f), 'no final resize() found')
+    else:
+        arg = last['a'][0]
+        atoms = {}
+        def opaque(e):
+            # pointer differences and (reassigned) counters are opaque integers
+            if e.get('k') == 'bin' and e.get('op') == '-' and T(f, strip(e['x']).get('t')).get('ptr'):
+                return True
+            if e.get('k') == 'var' and e.get('vk') in ('local', 'param') and e['id'] not in q.single_defs(f) and T(f, e.get('t')).get('int') and 'cv' not in e:
+                return True
+            return False
+        arg_x = q.expand(f, arg)
+        for w in walk_expr(arg_x):
+            if opaque(w):
+                atoms[pe(w)] = w
+        class Ev(bytesets.Evaluator):
+            def __init__(self, vals):
+                bytesets.Evaluator.__init__(self, prog, f)
+                self.vals = vals
+            def ev(self, e):
+                if e is not None and opaque(e) and pe(e) in self.vals:
+                    return self.vals[pe(e)]
+                return bytesets.Evaluator.ev(self, e)
+        names = sorted(atoms)
+        if not names or len(names) > 3:
+            ctx.undecided('R-NEGLEN', f['pq'], role, fwhere(f, last['l']), 'resize argument `%s` depends on %d opaque quantities' % (pe(arg), len(names)))
+        else:
+            import itertools
+            bad = None
+            try:
+                for vals in itertools.product(range(0, 7), repeat=len(names)):
+                    got = Ev(dict(zip(names, vals))).ev(arg_x)
+                    ctx.evaluations += 1
+                    if got < 0 and bad is None:
+                        bad = (dict(zip(names, vals)), got)
+                ctx.check(bad is None, 'R-NEGLEN', f['pq'], role, fwhere(f, last['l']), '`%s` >= 0 for all non-negative %s' % (pe(arg), ', '.join(names)),
+                          'the final resize(`%s`) is %s for %s: padding-only input yields a negative length' % (pe(arg), bad[1] if bad else '', bad[0] if bad else ''))
+            except bytesets.Undecidable as u:
+                ctx.undecided('R-NEGLEN', f['pq'], role, fwhere(f, last['l']), 'resize argument not evaluable: %s' % u)
     dh = fn1(prog, 'asl::decodeHex')
     ctx.analysed(dh)
     ctor = [v for s_ in ir.walk_stmts(dh['body']) if s_.get('k') == 'decl' for v in s_['vars'] if T(dh, v['t']).get('recp') == 'asl::Array']
